@@ -8,6 +8,7 @@ import (
 	"github.com/ExocoreNetwork/exocore/utils"
 	"github.com/cosmos/cosmos-sdk/client"
 	clienttx "github.com/cosmos/cosmos-sdk/client/tx"
+	"github.com/cosmos/cosmos-sdk/codec"
 	codectypes "github.com/cosmos/cosmos-sdk/codec/types"
 	cryptotypes "github.com/cosmos/cosmos-sdk/crypto/types"
 	sdk "github.com/cosmos/cosmos-sdk/types"
@@ -165,3 +166,6 @@ func (c *Chain) CosmosTx(from AccountKey, msgs ...sdk.Msg) (abci.ResponseDeliver
 	}
 	return c.DeliverTx(bz), nil
 }
+
+// Codec is the application's proto codec.
+func Codec() codec.Codec { return encCfg.Codec }
